@@ -47,6 +47,7 @@ class Tables:
         self.texts: List[str] = [""]
         self.kind: Dict[tuple, int] = {}
         self.kinds: List[tuple] = []
+        self.quote_kinds = False
         self.tree: Dict[int, int] = {}
         self.ver: Dict[Any, int] = {}
 
@@ -115,7 +116,7 @@ def project(segs, tb: Tables) -> dict:
         if s.is_meta:
             continue
         t.append(tb.tid(s.raw))
-        k.append(tb.kid(lex_class(s), leaf_type(s)))
+        k.append(tb.kid(lex_class(s), leaf_type(s) if tb.quote_kinds else s.get_type()))
     return {"t": t, "k": k}
 
 
@@ -301,6 +302,7 @@ def quiet_logs() -> None:
 def record_case(case: dict) -> dict:
     """case: {id, sql, dialect, rules, configs?, over?, mode} -> trace dict (see module docstring)."""
     tb = Tables()
+    tb.quote_kinds = case.get("mode") == "cap"      # C15 only: its CaseKinds are the *unquoted* kinds (see leaf_type)
     out: Dict[str, Any] = {"id": case["id"], "mode": case.get("mode", "any"), "clean0": False, "status": "ok",
                            "idem_required": False, "events": []}
     quiet_logs()
